@@ -351,6 +351,7 @@ class PyEval:
         return None
 
     def _stmt(self, st, p: PPath) -> list[PPath]:
+        self._path_events = p.events               # what happened on this path before the statement (see distinct_calls)
         if isinstance(st, (ast.Expr, ast.Assign, ast.AnnAssign, ast.AugAssign, ast.Return)) and self.resolver is not None:
             h = self._hoist_nested(st, p)
             if h is not None:
@@ -924,6 +925,14 @@ class PyEval:
             if f == ('name', 'super') and len(args) == 2 and not kw and args[1] == ('param', 'self') and args[0][0] == 'name':
                 args = []                               # super(C, self) inside C's own method is super()
             v = ('call', f, tuple(args), kw)
+            dc = getattr(self, 'distinct_calls', None)
+            if dc is not None and dc(v):
+                # a call that yields something new every time (a read from a stream): the k-th evaluation of the same term on this
+                # path is marked, so that two reads are two values
+                k_ = sum(1 for x_ in list(getattr(self, '_path_events', [])) + list(ev) if x_.kind == 'ecall' and (x_.value == v or (x_.value[:3] == v[:3] and x_.value[3][:len(kw)] == kw
+                                                                                       and x_.value[3][len(kw):][:1] and x_.value[3][len(kw)][0] == '#')))
+                if k_:
+                    v = ('call', f, tuple(args), tuple(kw) + (('#', ('const', k_)),))
             ev.append(PEvent('ecall', v, node=e))      # every call, in evaluation order
             return v
         if isinstance(e, ast.Compare):
